@@ -209,6 +209,8 @@ def _worker(args):
                 o[rec["result"] if rec["result"] in ("sat", "unsat") else "unknown"] += 1
                 if rec["reach"] == "sat":
                     o["reached"] += 1
+                elif rec["reach"] != "unsat":
+                    o["reach_unknown"] = o.get("reach_unknown", 0) + 1
                 if rec["result"] == "unknown":
                     res["inconclusive"].append(name)
                 if len(res["samples"]) < 3 and rec["result"] == "unsat":
@@ -285,7 +287,7 @@ def _worker(args):
                                                        "why": "outside-class model not reproduced"})
         # vacuity: every obligation must have been reachable at least once
         for name, o in res["obligations"].items():
-            if o["reached"] == 0:
+            if o["reached"] == 0 and not o.get("reach_unknown"):
                 raise RuntimeError(f"vacuous obligation {name} in case {case.name}: never reached with sat pc")
         for name, r in res["canaries"].items():
             if r != "sat":
